@@ -72,9 +72,20 @@ Fixpoint run_trace (s : st) (ops : list op) : list sexp :=
               end
   end.
 
+(* the harness asks for the last two steps of a history prefix only: earlier states are never encoded *)
+Fixpoint run_keep (s : st) (ops : list op) (n : nat) (acc : list (outcome * st)) : sexp :=
+  match ops with
+  | [] => SL [enc_nat n; SL (map (fun p : outcome * st => SL [enc_outcome (fst p); enc_state (snd p)]) (rev acc))]
+  | o :: r => match step (auto_fuel s) s o with
+              | None => SL [SA "out-of-fuel"; enc_nat n]
+              | Some (s1, out) => run_keep s1 r (S n) (firstn 2 ((out, s1) :: acc))
+              end
+  end.
+
 Definition dispatch (cmd : string) (args : list sexp) : option sexp :=
   match cmd, args with
   | "hist", ops => option_map (fun ops => SL (run_trace init ops)) (dec_list_aux dec_op ops)
+  | "last", ops => option_map (fun ops => run_keep init ops 0 []) (dec_list_aux dec_op ops)
   | "fixed", [] => Some (SL [enc_bool fixed_D7; enc_bool fixed_D8])
   | _, _ => None
   end.
